@@ -332,6 +332,11 @@ def _r4(repo, L, ovr, direct):
                 continue
             tail = [e for e in p.events[last_pop + 1:] if e.kind == "cond"]
             if not tail:
+                from ..util import ancestors as _anc
+
+                lp_node = p.events[last_pop].node
+                if any(isinstance(a, ast.For) for pp in pops for a in _anc(pp)):
+                    raise AnalysisError(f"{m.short}: rows are removed inside a for-loop (e.g. over takewhile(...)): the gap-stripping discipline is written in a form the pairing rule does not understand")
                 ok, why = False, "a path ends right after removing a row, without testing the new terminal row for Gap"
                 break
             t = tail[-1]
